@@ -49,6 +49,62 @@ def minute_sets(world, scripts):
     return out
 
 
+def wait_rows(rng, n):
+    """`time at P1 or P2 wait`, compiled and run by the real Machine; the clock handed to it passes the Machine's
+    pattern on to a real bardolph.lib.clock.Clock whose wall clock (datetime.now) moves on by a few seconds with
+    every reading and whose sleeping (Clock.wait) is replaced by "next poll".  Patterns at and around the turn
+    of the hour and of the day, many phases and step lengths."""
+    import datetime as real_datetime
+    import bardolph.lib.clock as clock_mod
+    from bardolph.lib import i_lib, injection
+    cases = [('10:58', ['10:00']), ('10:58', ['11:00']), ('10:58', ['11:*']), ('10:58', ['*:00']), ('10:58', ['1*:00']), ('10:58', ['*1:00']),
+             ('10:58', ['10:0*', '12:00']), ('10:58', ['11:01']), ('10:58', ['10:59']), ('23:58', ['23:00']), ('23:58', ['0:00']), ('23:58', ['*:*']),
+             ('23:58', ['0:0*']), ('9:58', ['9:00', '10:01']), ('9:58', ['1*:0*']), ('19:58', ['*9:00', '20:02']), ('12:29', ['12:30']), ('12:29', ['*:3*'])]
+    rows = []
+    state = {}
+    base = real_datetime.datetime(2026, 3, 1)
+
+    class Wall:
+        @staticmethod
+        def now():
+            state['t'] += state['step'] + rng.randint(0, 3)
+            state['polls'][-1].append((state['t'] // 60) % 1440)
+            return base + real_datetime.timedelta(seconds=state['t'])
+
+    class WalkingClock(runner.RecClock):
+        def wait_until(self, pattern):
+            clock = clock_mod.Clock()
+
+            def next_poll():
+                if len(state['polls']) >= 400:
+                    return False                     # two hours and more have gone by: give up
+                state['polls'].append([])
+                return True
+            clock.wait = next_poll
+            clock.wait_until(pattern)
+            state['waited'] = True
+
+    world = runner.World([])
+    injection.bind_instance(WalkingClock(world.rec)).to(i_lib.Clock)
+    saved = clock_mod.datetime
+    clock_mod.datetime = Wall
+    try:
+        for i in range(n):
+            start, pats = cases[i % len(cases)]
+            hh, mm = start.split(':')
+            state.update(t=int(hh) * 3600 + int(mm) * 60 + rng.randint(0, 59), polls=[[]], step=rng.choice([7, 11, 13, 19, 23, 29]), waited=False)
+            res = runner.run_script(world, 'time at %s wait\n' % ' or '.join(pats))
+            if not state['waited']:
+                continue
+            polls = [p or [9999] for p in state['polls']]
+            rows.append({'kind': 'wait', 'pats': [codes(p) for p in pats], 'polls': polls, 'ended': len(state['polls']) < 400, 'minutes': [],
+                         'text': '%s from %s stepping %ds' % (' or '.join(pats), start, state['step'])})
+    finally:
+        clock_mod.datetime = saved
+        world.close()
+    return rows
+
+
 def run(report, replay=None):
     tier, seed = report.tier, report.seed
     rng = random.Random(seed)
@@ -151,6 +207,11 @@ def run(report, replay=None):
             rows.append({'id': rid, 'kind': 'or', 'pats': [codes(p) for p in c], 'minutes': minutes, 'hist': True})
     n_hist = len(rows) - n_single - n_or
     world.close()
+    for row in wait_rows(rng, 900 if tier == 'thorough' else 180):
+        rid = len(rows)
+        texts[rid] = 'wait ' + row.pop('text')
+        row['id'] = rid
+        rows.append(row)
 
     shards = tlc.split(rows, 16)
     results = tlc.run_sharded('TraceTimePattern', shards, timeout=1500)
@@ -172,6 +233,12 @@ def run(report, replay=None):
         report.sample({'text': texts[r['id']], 'row': {k: (v if k != 'minutes' else v[:12]) for k, v in r.items()}})
     for row in failed:
         text = texts[row['id']]
+        if row['kind'] == 'wait':
+            report.violation('wait:' + ('ended-at-unmatched-time' if row['ended'] else 'never-ended'),
+                             '%s: the wait %s; clock readings of the last poll (minute of day): %s' % (
+                                 text, 'ended' if row['ended'] else 'did not end within 400 polls', row['polls'][-1]),
+                             {'text': text, 'polls': row['polls'][-6:], 'patterns': text})
+            continue
         if row['kind'] == 'single':
             if row['accepted']:
                 sig = 'accepted-unsatisfiable' if not row['minutes'] else 'single-minutes'
